@@ -168,3 +168,44 @@ Proof.
   - simpl. f_equal. apply IH; [exact Hd'|]. destruct Hi as [Hi|Hi]; [|exact Hi].
     apply str_eqb_neq in E. contradiction.
 Qed.
+
+(* ---------- Python's str.strip() / str.isspace(): the 29 whitespace code points of CPython 3.12 ---------- *)
+Definition py_space (c : Z) : bool :=
+  ((9 <=? c) && (c <=? 13)) || ((28 <=? c) && (c <=? 32)) || (c =? 133) || (c =? 160) || (c =? 5760)
+  || ((8192 <=? c) && (c <=? 8202)) || (c =? 8232) || (c =? 8233) || (c =? 8239) || (c =? 8287) || (c =? 12288).
+Fixpoint dropws (s : str) : str :=
+  match s with
+  | [] => []
+  | c :: r => if py_space c then dropws r else s
+  end.
+Definition py_strip (s : str) : str := rev (dropws (rev (dropws s))).
+
+Lemma dropws_nil_iff s : dropws s = [] <-> forallb py_space s = true.
+Proof.
+  induction s as [|c r IH]; simpl; [tauto|].
+  destruct (py_space c); simpl; [exact IH|]. split; discriminate.
+Qed.
+Lemma forallb_rev {A} (f : A -> bool) l : forallb f (rev l) = forallb f l.
+Proof.
+  induction l as [|x r IH]; simpl; [reflexivity|].
+  rewrite forallb_app, IH. simpl. rewrite andb_true_r. apply andb_comm.
+Qed.
+Lemma dropws_suffix s : exists p, s = p ++ dropws s /\ forallb py_space p = true.
+Proof.
+  induction s as [|c r IH]; simpl; [exists []; split; reflexivity|].
+  destruct (py_space c) eqn:E.
+  - destruct IH as (p & Hp & Hs). exists (c :: p). simpl. rewrite E, Hs. split; [f_equal; exact Hp|reflexivity].
+  - exists []. split; reflexivity.
+Qed.
+(* len(s.strip()) == 0 exactly when every character of s is whitespace *)
+Lemma py_strip_empty s : (Z.of_nat (length (py_strip s)) =? 0) = forallb py_space s.
+Proof.
+  unfold py_strip. rewrite rev_length.
+  destruct (forallb py_space s) eqn:E.
+  - apply dropws_nil_iff in E. rewrite E. reflexivity.
+  - apply Z.eqb_neq. intros H.
+    assert (dropws (rev (dropws s)) = []) as D by (destruct (dropws (rev (dropws s))); [reflexivity|simpl in H; lia]).
+    apply dropws_nil_iff in D. rewrite forallb_rev in D.
+    destruct (dropws_suffix s) as (p & Hp & Hs).
+    rewrite Hp, forallb_app, Hs, D in E. discriminate.
+Qed.
